@@ -33,6 +33,20 @@ fn gt_elem(rng: &mut StdRng, pool: &Pool) -> Gt {
     }
 }
 
+/// q^k mod r as a scalar: g^(q^k) is the q^k-power Frobenius conjugate of g (same subfield coefficients, e.g. the same leading
+/// F_q^4 coefficient for k = 4), a distinct element of Gt algebraically related to g
+fn frob_scalar(k: u32) -> Fr {
+    let mut qb = (-Fq::one()).to_slice().to_vec();
+    for i in (0..32).rev() {
+        qb[i] = qb[i].wrapping_add(1);
+        if qb[i] != 0 { break; }
+    }
+    let q = Fr::from_slice(&qb).unwrap();
+    let mut acc = Fr::one();
+    for _ in 0..k { acc = acc * q; }
+    acc
+}
+
 pub fn run_gt(a: &Args, out: &mut Out) {
     let pool = load_pool(&a.pool, "Fr");
     let mut rng = rng_from(a.seed, "gt");
@@ -50,8 +64,16 @@ pub fn run_gt(a: &Args, out: &mut Out) {
     while !out.full() {
         k += 1;
         let (g, h) = (gt_elem(&mut rng, &pool), gt_elem(&mut rng, &pool));
+        // every fifth pair: h is a Frobenius conjugate of g (h = g^(q^k)), or its inverse
+        let h = if k % 5 == 0 {
+            let c = g.pow(frob_scalar([1u32, 2, 3, 4, 6, 4, 8][(k / 5 % 7) as usize]));
+            if k % 10 == 0 { c } else { c.inverse().unwrap() }
+        } else { h };
         let (sg, sh) = (g.to_slice(), h.to_slice());
         out.call("gt.mul", json!({"a": b(&sg), "b": b(&sh)}), || outs! {"out" => b(&(g * h).to_slice())});
+        if k % 5 == 0 {
+            out.call("gt.mul", json!({"a": b(&sh), "b": b(&sg)}), || outs! {"out" => b(&(h * g).to_slice())});
+        }
         out.call("gt.eq", json!({"a": b(&sg), "b": b(&sh)}), || outs! {"out" => Value::Bool(g == h), "refl" => Value::Bool(g == g)});
         match k % 4 {
             0 => {
@@ -101,6 +123,26 @@ pub fn run_pairing(a: &Args, out: &mut Out) {
             pair_ev(out, v, z1, G2::one(), Fr::zero(), Fr::one(), false);
             pair_ev(out, v, G1::one(), z2, Fr::one(), Fr::zero(), false);
             pair_ev(out, v, z1, z2, Fr::zero(), Fr::zero(), false);
+        }
+    }
+    if focus == "vector" {
+        // G1 representatives crafted so that their normalisation multiplies a TLC-generated operand pair (no discrete logarithm known:
+        // only the byte-exact textbook pairing of the abstracted operands is checked)
+        let poolq = load_pool(&a.pool, "Fq");
+        let mut done = 0;
+        for (i, pr) in poolq.qpairs.iter().chain(poolq.vpairs.iter()).enumerate() {
+            if done >= (if a.tier == "thorough" { 300 } else { 45 }) { break; }
+            if i % 5 != (a.seed % 5) as usize { continue; }
+            if let Some(p) = crafted_g1(pr) {
+                done += 1;
+                let kb = pick_scalar(&mut rng, &pool);
+                if kb.is_zero() { continue; }
+                let q = G2::one() * kb;
+                let v = ENTRY[done % 3];
+                out.call("pair", json!({"v": v, "p": p.jac(), "q": q.jac(), "ka": b(&[0u8; 32]), "kb": b(&kb.to_slice()), "full": true, "nodl": true}), || {
+                    outs! {"out" => b(&pair_by(v, p, q).to_slice())}
+                });
+            }
         }
     }
     let mut k = 0u64;
